@@ -84,6 +84,15 @@ STRENGTHENED = {
     'C18-7': 'KillableThread notifier killed at each line of notify_update, next notification follows',
     'C20-7': 'bodies raising BaseException inside save_and_restore (snr_call with raise_kind)',
     'C20-8': 'two-thread races on declare / load (engine on configuration.py)',
+    # sixth round
+    'C05-9': 'options given by two PhaseOptions layers (repeat limit first, the rest on top)',
+    'C06-9': 'the phase that runs is a with_args() derivation of the declared one',
+    'C09-9': 'a callback registered by a phase while the test runs (late_registration history)',
+    'C11-9': 'one @monitors decorator object shared by a plain and a with_args() phase, reruns and another test',
+    'C15-9': 'two threads opening streams while the id counter wraps, the first held at each line of the id allocation',
+    'C17-9': 'writer in a child with RLIMIT_FSIZE below / above the size of the publication',
+    'C18-9': 'caught only by chance at first (one of two runs, by the sampled whole-run watchers); now the state as it was at its last notification is compared with the state at every quiescent point',
+    'C19-9': 'a phase killed while the record handler saves its message; later messages of the run must still be captured',
 }
 # caught at once, but by the check of a neighbouring property
 NEIGHBOUR = {
@@ -94,6 +103,9 @@ NEIGHBOUR = {
     'C01-7': 'caught by the C04 check (abort schedules: aborted run ended PASS)',
     'C04-8': 'caught by the C03 check (aborter-held schedules: nested teardown phase not run)',
     'C06-8': 'caught by the C11 check (declared objects changed by execute())',
+    'C01-9': 'caught by the C06 check (a validator that raises marks the measurement FAIL)',
+    'C04-9': 'caught by the C12 check (a kill requested before the body started prevents it)',
+    'C12-9': 'caught by the C05 check (record result of a timed-out invocation with a raising diagnoser)',
 }
 rows = []
 root = os.path.join(HERE, 'seeded')
